@@ -24,41 +24,62 @@ def located(tree, name):
 def judge_c09(res):
     """after the first run every named target exists, holds the definition at its location and that definition
     describes the truth's interface.  Returns list of failures dict(target, what, facts)."""
+    scn = res["scn"]
+    out = _agree(res, res["runs"][0], res["snaps"][1], res["proj"]["gold_ir"], 0, None)
+    ed = res.get("edit")
+    if ed is not None and ed["gold_ir"] is not None and res["runs"][0]["exception"] is None:
+        # the truth was edited after the regular runs: one more sync must make every target agree with the NEW truth
+        out += _agree(res, ed["run"], ed["after"], ed["gold_ir"], len(res["runs"]), "edit")
+    return out
+
+
+def _agree(res, run, snap, gold, run_index, phase):
     scn, out = res["scn"], []
-    run = res["runs"][0]
-    snap = res["snaps"][1]
-    gold = res["proj"]["gold_ir"]
     if run["exception"] is not None:
-        return [{"target": "*", "what": "sync raised %s" % run["exception"], "facts": facts_of(scn, None)}]
+        return [{"target": "*", "what": "sync raised %s" % run["exception"], "facts": facts_of(scn, None, run_index), "kind": "raised",
+                 "phase": phase}]
     for tk in scn["targets"]:
         k = L.kind_of(tk)
         fname = res["paths"][tk]
         name = scn["names"][k]
-        fx = facts_of(scn, tk)
+        fx = facts_of(scn, tk, run_index)
+
+        def fail(kind, what):
+            out.append({"target": tk, "what": what + (" (after the truth was edited)" if phase else ""), "facts": fx, "kind": kind,
+                        "phase": phase})
         if fname not in snap:
-            out.append({"target": tk, "what": "target file does not exist after sync", "facts": fx})
+            fail("missing-file", "target file does not exist after sync")
             continue
         tree = _parse_or_none(snap[fname])
         if tree is None:
-            out.append({"target": tk, "what": "target file does not parse after sync", "facts": fx})
+            fail("no-parse", "target file does not parse after sync")
             continue
         node = located(tree, name)
         if node is None:
-            out.append({"target": tk, "what": "definition %s not found at its location after sync" % name, "facts": fx})
+            fail("not-found", "definition %s not found at its location after sync" % name)
             continue
         want = ast.ClassDef if k == "class" else ast.FunctionDef
         if not isinstance(node, want):
-            out.append({"target": tk, "what": "definition at %s is a %s" % (name, type(node).__name__), "facts": fx})
+            fail("wrong-type", "definition at %s is a %s" % (name, type(node).__name__))
             continue
         try:
             got = L.parse_def(k, node)
         except Exception as e:  # noqa
-            out.append({"target": tk, "what": "parsing the synchronised definition raised %s" % type(e).__name__, "facts": fx})
+            fail("parse-raised", "parsing the synchronised definition raised %s" % type(e).__name__)
             continue
         d = iface.same_interface(gold, got, check_returns=not scn.get("with_returns"))
         if d:
-            out.append({"target": tk, "what": "interface differs from the truth: " + "; ".join(d[:3]), "facts": fx})
+            fail("interface", "interface differs from the truth: " + "; ".join(d[:3]))
     return out
+
+
+def _steps(res):
+    """(run index, run, snapshot before, snapshot after, is a repetition with unchanged arguments and truth, phase)"""
+    st = [(i, run, res["snaps"][i], res["snaps"][i + 1], i >= 1, None) for i, run in enumerate(res["runs"])]
+    ed = res.get("edit")
+    if ed is not None:
+        st.append((len(res["runs"]), ed["run"], ed["before"], ed["after"], False, "edit"))
+    return st
 
 
 def judge_c10(res):
@@ -66,15 +87,15 @@ def judge_c10(res):
     whose bytes changed in that run; printed lines agree."""
     scn, out = res["scn"], []
     truth_file = res["paths"][scn["truth"]]
-    for i, run in enumerate(res["runs"]):
-        before, after = res["snaps"][i], res["snaps"][i + 1]
+    for i, run, before, after, repeat, phase in _steps(res):
         fx = facts_of(scn, None, run_index=i)
+        n0 = len(out)
         if before.get(truth_file) != after.get(truth_file):
             out.append({"target": scn["truth"], "what": "truth file modified by run %d" % i, "facts": fx, "kind": "truth-modified"})
         extra = set(after) - set(before) - set(res["paths"].values())
         if extra:
             out.append({"target": "*", "what": "unexpected files created: %s" % sorted(extra), "facts": fx, "kind": "extra-files"})
-        if i >= 1 and res["runs"][0]["exception"] is None:
+        if repeat and res["runs"][0]["exception"] is None:
             for f in sorted(set(before) | set(after)):
                 if before.get(f) != after.get(f):
                     k = next((kk for kk in res["paths"] if res["paths"][kk] == f), None)
@@ -98,6 +119,8 @@ def judge_c10(res):
                         out.append({"target": k or f, "what": "run %d printed %r for %s but bytes %s" % (
                             i, word, f, "changed" if changed else "did not change"), "facts": facts_of(scn, k, run_index=i),
                             "kind": "print-modified-bytes-same" if word == "modified" else "print-unchanged-bytes-changed"})
+        for f in out[n0:]:
+            f["phase"] = phase
     return out
 
 
@@ -125,11 +148,23 @@ def _masked_dump(tree, name):
     return out
 
 
+def _clean_docstrings(tree):
+    """the tree with every docstring constant replaced by its inspect.cleandoc form (what formatting may re-indent)"""
+    import copy
+    import inspect
+    tree = copy.deepcopy(tree)
+    for n in ast.walk(tree):
+        if isinstance(n, (ast.Module, ast.ClassDef, ast.FunctionDef, ast.AsyncFunctionDef)) and n.body and \
+                isinstance(n.body[0], ast.Expr) and isinstance(n.body[0].value, ast.Constant) and isinstance(n.body[0].value.value, str):
+            n.body[0].value.value = inspect.cleandoc("\n".join(l.rstrip() for l in n.body[0].value.value.split("\n"))).strip("\n")
+    return tree
+
+
 def judge_c11(res):
     """every run that changes a target file preserves all other statements/siblings in order, and the file parses"""
     scn, out = res["scn"], judge_bodies(res)
-    for i, run in enumerate(res["runs"]):
-        before, after = res["snaps"][i], res["snaps"][i + 1]
+    for i, run, before, after, repeat, phase in _steps(res):
+        n0 = len(out)
         for tk in scn["targets"]:
             k = L.kind_of(tk)
             f = res["paths"][tk]
@@ -155,9 +190,13 @@ def judge_c11(res):
                 j = next((j for j, (x, y) in enumerate(zip(a, b)) if x != y), min(len(a), len(b)))
                 only_doc = (len(a) == len(b) and a[1:] == b[1:] and ast.get_docstring(old) is not None
                             and ast.get_docstring(new) is not None)
+                a2 = [x for x in _masked_dump(_clean_docstrings(old), name) if x != "<<NAMED DEFINITION>>"]
+                b2 = [x for x in _masked_dump(_clean_docstrings(new), name) if x != "<<NAMED DEFINITION>>"]
                 out.append({"target": tk, "what": "other statements not preserved (run %d): %d vs %d items, first difference at %d: %s | %s" % (
                     i, len(a), len(b), j, (a[j][:80] if j < len(a) else "-"), (b[j][:80] if j < len(b) else "-")), "facts": fx,
-                    "kind": "module-docstring-only" if only_doc else "statements"})
+                    "kind": "module-docstring-only" if only_doc else "docstrings-only" if a2 == b2 else "statements"})
+        for f in out[n0:]:
+            f["phase"] = phase
     return out
 
 
@@ -184,8 +223,11 @@ def judge_bodies(res):
             continue
         tr = _parse_or_none(snap.get(res["paths"][tk], b""))
         n2 = located(tr, scn["names"]["function"]) if tr else None
+        if n2 is None and tr is not None:
+            # a method target written at module level (a location failure, C09's business): the body is judged where it is
+            n2 = located(tr, scn["names"]["function"].split(".")[-1])
         if n2 is None:
-            continue      # location failures are C09's business
+            continue
         b2 = [ast.dump(x) for x in (n2.body[1:] if ast.get_docstring(n2) is not None else n2.body)]
         if b2 != tbody:
             out.append({"target": tk, "what": "statements of the synchronised function's body were not carried verbatim: %s vs %s" % (
